@@ -1,4 +1,5 @@
 import DDS.Props.All
 import DDS.Props.Lift
+import DDS.Props.Lift2
 import DDS.Props.NonVacuity
 import DDS.Driver
